@@ -103,6 +103,16 @@ def cases(tier, seed):
             b = int(rng.integers(1, min(scn["iters"], 40)))
             scn["pattern"] = [["iter", b], ["solve"]]
         out.append(scn)
+    # eps below the cell size of the evolvent (N >= 2, eps = 0.05..0.9 x 2^-m): the last trials share cells with their neighbours; the
+    # stop rule speaks about Hoelder lengths on [0,1] only, so the budget and the stop moment are judged as everywhere else
+    for i in range(64 if tier == "quick" else 4000):
+        rng = scenario.rng_for(seed, "C03sub", i)
+        m = int(rng.integers(2, 7))
+        scn = scenario.gen_scenario(rng, dims=(2, 2, 3), max_iters=400, m=m, fams=["cones", "sines", "wells", "linear", "rcos"])
+        scn["eps"] = float(2.0 ** (-m) * rng.uniform(0.05, 0.9))
+        scn["iters"] = int(rng.choice([30, 60, 120, 250, 400]))
+        scn["grp"] = "subcell"
+        out.append(scn)
     # workloads written by the repository's authors (shipped examples, solving tests) under the same oracle
     out += ambient.ambient_cases(tier)
     return out
@@ -197,7 +207,7 @@ def run_case(scn):
 
 
 def finalize(obs, tier, stats):
-    miss = [k for k in ("stop_budget", "stop_accuracy", "equality_hit", "single_trial_runs", "refine_runs", "accuracy_checked", "solves_continuing_earlier_work", "grp_raise-limit", "global_trials_after_local_trials") if not obs.get(k)]
+    miss = [k for k in ("stop_budget", "stop_accuracy", "equality_hit", "single_trial_runs", "refine_runs", "accuracy_checked", "solves_continuing_earlier_work", "grp_raise-limit", "grp_subcell", "global_trials_after_local_trials") if not obs.get(k)]
     if miss:
         return "never observed: %s" % miss, {}
     if obs.get("equality_hit", 0) < 10:
